@@ -11,6 +11,12 @@
      load_h_refines        (D) with the allocator that grants everything, SIZE_MAX <= cap and
                                len buf < 2^57: load_h and PBuild.load return the same thing
                                (same error triple, or an item whose [abs_of] is P's tree)
+     load_h_refines_any    (D') ANY allocator, len buf < SIZE_MAX: the two sides agree, or the H side
+                               alone reports a memory error (a request refused, or a growth stopped by
+                               the overflow guards: 2^57 items at least).  Hence load_h_ok_is_load_any /
+                               load_h_ok_abs_any: whenever cbor_load returns an item, the item abstracts
+                               to P's tree, with every traversal budget covering the cells of the call
+     load_h_success_order      children are younger than their parent, blocks belong to the call
 
    The loop invariant combines
      - the reference-count accounting [Inv] of HRef_proofs, with the decoder stack as the client:
@@ -1418,11 +1424,24 @@ Proof. intros buf w a code pos rd w' Hb Hl _ I H.
   - intros b sz Hb' Eb. apply (fresh_block_owner refuse L w own ownd _ _ w' b sz I I2 Gw); [|exact Hb'|exact Eb].
     intros x Hx. apply (Z x Hx). Qed.
 
+(* ... and the cells created by the call are ordered: the children of an item are younger than the
+   item, its blocks are cells of the call (no cycle, no pointer into the caller's heap) *)
+Theorem load_h_success_order : forall buf w a code pos rd w',
+  bytes_ok buf -> len buf < SIZE_MAX -> wf w -> Inv own ownd [] w ->
+  load_h refuse L buf w = Ret (Some a, code, pos, rd) w' ->
+  forall b rc n, next w <= b -> heap w' b = Some (CItem rc n) ->
+    (forall k, In k (kids n) -> b < k) /\ (forall d, In d (dblocks n) -> next w <= d).
+Proof. intros buf w a code pos rd w' Hb Hl _ I H.
+  destruct (load_h_res refuse L w own ownd buf Hb Hl I) as (r & w1 & E & HR).
+  rewrite E in H. inversion H; subst. destruct HR as (_ & _ & _ & Gw & _).
+  intros b rc n Hb' E'. exact (g_ord _ _ Gw b rc n Hb' E'). Qed.
+
 End Main.
 
 (* ========================================================================================== *)
-(* 12. (D) refinement: with an allocator that never refuses, load_h computes what the pure     *)
-(*     model PBuild.load computes                                                              *)
+(* 12. (D) refinement: load_h computes what the pure model PBuild.load computes, unless the    *)
+(*     allocator refuses a request (the simulation is carried out for an arbitrary oracle: a   *)
+(*     step either keeps the two sides together or ends in a creation failure of H alone)      *)
 (* ========================================================================================== *)
 
 (* ghost labelling: the tree of every complete item created by the call *)
@@ -1706,6 +1725,7 @@ Proof.
 Qed.
 
 Section Refine.
+Variable refuse : N -> N -> bool.   (* an arbitrary allocator *)
 Variables (L cap : N) (w0 : world) (own ownd : addr -> N).
 Notation N0 := (next w0).
 Notation PRE := (PRE w0 own ownd).
@@ -1741,6 +1761,19 @@ Proof. intros H1 H2 H3 HL HS. split; [exact H1|]. cbn [hcf hse hstack hroot].
   split; [symmetry; exact H2|]. split; [symmetry; exact H3|]. split; [intros [|]; discriminate|].
   intros _ _. split; assumption. Qed.
 
+(* Under an arbitrary allocator the H side may fail where the P side goes on: a request refused by the
+   oracle, or a growth stopped by the overflow guards of _cbor_realloc_multiple (possible only once 2^57
+   items have been read).  Then the callback reports a creation failure, and that is all that is claimed. *)
+Definition Bad (k : N) : Prop := (exists i s, refuse i s = true) \/ 2 ^ 57 <= k.
+Definition SIMPOSTr (k : N) (c : hctx) (w' : world) (cP : bctx) : Prop :=
+  SIMPOST k c w' cP \/ (Bad k /\ hcf c = true /\ UI w' (hstack c)).
+
+Lemma bad_refused k i s : refuse i s = true -> Bad k.
+Proof. intros H. left. eauto. Qed.
+
+Lemma post_cf c w' : POST w0 own ownd c w' -> hcf c = true -> UI w' (hstack c).
+Proof. intros [(X & _)|(_ & U)] H; [congruence|exact U]. Qed.
+
 (* the part of a step that concerns cells outside the touched container *)
 Lemma sim_frame T w w2 k k' top rest frest :
   CONS T w -> T top = None -> k <= k' ->
@@ -1753,12 +1786,12 @@ Proof. intros C Tt Hk Fr S F. split.
   - apply (sim_transport T T w w2 k k' rest frest); [intros x _; reflexivity|exact Hk| | |exact F].
     + intros r Hr. clear - F Hr. induction F as [|r0 f0 l l' (Tr & _) F IH]; [destruct Hr|].
       destruct Hr as [<-|Hr]; [exact Tr|apply IH; exact Hr].
-    + intros r Hr. pose proof (stack_ok_lt grant L w0 own ownd w rest top r S Hr) as Hlt. apply Fr; [lia|].
+    + intros r Hr. pose proof (stack_ok_lt refuse L w0 own ownd w rest top r S Hr) as Hlt. apply Fr; [lia|].
       clear - F Hr. induction F as [|r0 f0 l l' (_ & n & Hn & _) F IH]; [destruct Hr|].
       destruct Hr as [<-|Hr]; [exists 1, n; exact Hn|apply IH; exact Hr]. Qed.
 
 
-Notation A5 l := (l grant L w0 own ownd).
+Notation A5 l := (l refuse L w0 own ownd).
 
 Lemma cons_item T w x : CONS T w -> T x <> None -> is_item w x.
 Proof. intros C Hx. destruct (T x) as [tx|] eqn:E; [|contradiction].
@@ -1797,7 +1830,7 @@ Proof. intros C Tt Fr S F A Nt.
   - eapply cons_extend; [exact C3|exact Tt|exact Htop3|exact Nt].
   - destruct A as (_ & _ & _ & _ & _ & _ & S2).
     apply (sim_transport T (tupd T top t') w2 w3 k k rest frest); [apply tupd_ext; exact Tt|lia| | |exact F2].
-    + intros r Hr. pose proof (stack_ok_lt grant L w0 own ownd w2 rest top r S2 Hr) as Hlt.
+    + intros r Hr. pose proof (stack_ok_lt refuse L w0 own ownd w2 rest top r S2 Hr) as Hlt.
       rewrite tupd_other by lia. clear - F2 Hr. induction F2 as [|r0 f0 l l' (Tr & _) F IH]; [destruct Hr|].
       destruct Hr as [<-|Hr]; [exact Tr|apply IH; exact Hr].
     + intros r Hr. apply Fr3. intros E.
@@ -1810,11 +1843,11 @@ Proof. intros C Tt Fr S F A Nt.
 Lemma grant_false a b : grant a b = false. Proof. reflexivity. Qed.
 
 Lemma happend_sim : forall stk fs w it t T k,
-  PRE w it stk -> CONS T w -> T it = Some t -> Forall2 (frep T w k) stk fs -> k < 2 ^ 57 ->
-  exists c w', happend grant it stk w = Ret c w' /\ SIMPOST (k + 1) c w' (append t fs).
+  PRE w it stk -> CONS T w -> T it = Some t -> Forall2 (frep T w k) stk fs ->
+  exists c w', happend refuse it stk w = Ret c w' /\ SIMPOSTr (k + 1) c w' (append t fs).
 Proof.
-  induction stk as [|[[rec top] sub] rest IH]; intros fs w it t T k P C Ht F Hk.
-  { inversion F; subst. exists (mkhctx [] (Some it) false false), w. split; [reflexivity|]. cbn [append]. unfold ok_root.
+  induction stk as [|[[rec top] sub] rest IH]; intros fs w it t T k P C Ht F.
+  { inversion F; subst. exists (mkhctx [] (Some it) false false), w. split; [reflexivity|]. cbn [append]. unfold ok_root. left.
     split; [reflexivity|]. split; [reflexivity|]. split; [reflexivity|]. split; [intros [|]; discriminate|].
     intros _ _. cbn [hstack hroot root stack]. exists it, t. split; [reflexivity|]. split; [reflexivity|]. split; [reflexivity|].
     split; [|exists T; split; assumption].
@@ -1836,10 +1869,10 @@ Proof.
   destruct n as [neg iw v|fw bits|v|text data bytes|text hdr arr cap0 chunks|indef data al elems|indef data al pairs|v child];
     cbn [shape] in Sh; try contradiction; cbn beta iota.
   - (* open indefinite string: syntax error on both sides *)
-    destruct ((A5 fail_release) w it _ Ip Gp Hitp (stack_ok_fresh grant L w0 own ownd _ _ _ (proj2 (proj2 (proj2 (proj2 P)))))) as (w2 & H2 & U2).
+    destruct ((A5 fail_release) w it _ Ip Gp Hitp (stack_ok_fresh refuse L w0 own ownd _ _ _ (proj2 (proj2 (proj2 (proj2 P)))))) as (w2 & H2 & U2).
     bstep H2. eexists. eexists. split; [reflexivity|].
     destruct f as [fi racc fal fsub|fi racc key fal fsub|fv|racc|racc]; cbn [fnode] in Fn; try contradiction;
-      (apply simpost_fail; [reflexivity|reflexivity|reflexivity|right; reflexivity|exact U2]).
+      (left; apply simpost_fail; [reflexivity|reflexivity|reflexivity|right; reflexivity|exact U2]).
   - (* arrays *)
     assert (P59 : 2 ^ 59 = 2 * 2 ^ 58) by reflexivity. assert (P58 : 2 ^ 58 = 2 * 2 ^ 57) by reflexivity.
     assert (NI : forall x, is_item w x -> x <> next w).
@@ -1849,7 +1882,7 @@ Proof.
       destruct Fn as (Fs & Fal & Flen & Fd). destruct Sh as (Sd & Sal).
       assert (Hb : block_inv w data al).
       { destruct data as [d|]; cbn [block_inv]; [|apply Sd; reflexivity]. apply (Hblk d). left. reflexivity. }
-      destruct (push_indefinite grant top it w 1 data al elems 1 nit Hwf Htop Hb Hit Hne Sal) as [Hroom Hfull].
+      destruct (push_indefinite refuse top it w 1 data al elems 1 nit Hwf Htop Hb Hit Hne Sal) as [Hroom Hfull].
       cbn [append].
       assert (Fs' : seqo (map T (elems ++ [it])) = Some (rev (t :: racc))) by (cbn [rev]; apply seqo_snoc; assumption).
       destruct (N.lt_ge_cases (len elems) al) as [Hlt|Hge].
@@ -1858,14 +1891,24 @@ Proof.
                     eq_refl eq_refl P1 P2 P3 P4) as (w2 & E2 & A2).
         pose proof (attach_frame w w1 w2 it top nit [] Hit P2 P3 E2) as FR.
         bstep E2. eexists. eexists. split; [reflexivity|]. cbn [negb].
-        eapply (sim_stay T w w2 k rec top sub rest frest _ _ C Ttop (fun x Hx _ => FR x Hx (fun H => H)) Sp5 F A2).
+        left. eapply (sim_stay T w w2 k rec top sub rest frest _ _ C Ttop (fun x Hx _ => FR x Hx (fun H => H)) Sp5 F A2).
         -- cbn [shape]. split; assumption.
         -- cbn [fnode]. rewrite len_app. change (len [it]) with 1. split; [exact Fs'|]. split; [lia|]. split; [lia|].
            intros _. destruct data; [discriminate|]. specialize (Sd eq_refl). lia.
-      * specialize (Hfull Hge). rewrite (grow_passes al ltac:(lia)) in Hfull. cbn beta iota in Hfull.
-        destruct Hfull as (Hc & Hlt & Hby & Hb64 & Hfull). unfold grant in Hfull.
+      * specialize (Hfull Hge). destruct (grow_req SZ_PTR al) as [[c bytes]|] eqn:Gr.
+        2:{ (* the overflow guards stop the growth: possible only beyond 2^57 items *)
+            destruct Hfull as (w1 & E1 & SH & _). bstep E1.
+            destruct ((A5 fail_same) w w1 it _ P SH) as (w2 & E2 & U2). bstep E2.
+            eexists. eexists. split; [reflexivity|]. right. cbn [hcf hstack negb]. split; [|split; [reflexivity|exact U2]].
+            right. destruct (N.lt_ge_cases k (2 ^ 57)) as [Hk|Hk]; [|lia].
+            rewrite (grow_passes al ltac:(lia)) in Gr. discriminate Gr. }
+        destruct Hfull as (Hc & Hlt & Hby & Hb64 & Hfull). destruct (refuse (nreq w) bytes) eqn:Rf.
+        { destruct Hfull as (w1 & E1 & SH & _). bstep E1.
+          destruct ((A5 fail_same) w w1 it _ P SH) as (w2 & E2 & U2). bstep E2.
+          eexists. eexists. split; [reflexivity|]. right. cbn [hcf hstack negb].
+          split; [exact (bad_refused _ _ _ Rf)|split; [reflexivity|exact U2]]. }
         destruct Hfull as (w1 & E1 & P1 & P2 & P3 & P4 & P5 & P6 & _). bstep E1.
-        set (c := N.max 1 (2 * al)) in *.
+        unfold SZ_PTR in Hby. subst bytes.
         destruct ((A5 attach_moved) w w1 it rec top sub rest _ (NArr true (Some (next w)) c (elems ++ [it])) nit
                     data [] (8 * c) P Htop Hit eq_refl (eq_sym (app_nil_r _)) eq_refl P1 P2 P3 P4 P5 P6) as (w2 & E2 & A2).
         pose proof (attach_frame w w1 w2 it top nit _ Hit P2 P5 E2) as FR.
@@ -1874,7 +1917,7 @@ Proof.
           destruct data as [d|]; [|exact E]. cbn [HCont_proofs.opt_list In] in E. destruct E as [<-|[]].
           destruct Hb as [s Hs]. destruct Hi as (rc & nx & Ex). congruence. }
         bstep E2. eexists. eexists. split; [reflexivity|]. cbn [negb].
-        eapply (sim_stay T w w2 k rec top sub rest frest _ _ C Ttop FR' Sp5 F A2).
+        left. eapply (sim_stay T w w2 k rec top sub rest frest _ _ C Ttop FR' Sp5 F A2).
         -- cbn [shape]. split; [discriminate|]. lia.
         -- cbn [fnode]. rewrite len_app. change (len [it]) with 1. split; [exact Fs'|]. split; [lia|]. split; [lia|]. discriminate.
     + destruct data as [d|]; [|contradiction]. destruct Sh as (Ssub & Sal).
@@ -1882,7 +1925,7 @@ Proof.
       destruct Fn as (-> & -> & Fs).
       destruct (N.ltb_spec 0 sub) as [_|]; [|lia]. cbn [assert_]. rewrite bind_ret_l.
       destruct (Hblk d) as ([sz Hd] & _); [left; reflexivity|].
-      bstep (push_definite_room grant top it w 1 d sz al elems 1 nit Htop Hd Hit Hne ltac:(lia)). cbn [negb].
+      bstep (push_definite_room refuse top it w 1 d sz al elems 1 nit Htop Hd Hit Hne ltac:(lia)). cbn [negb].
       destruct (w_push_props top 1 (NArr false (Some d) al (elems ++ [it])) d it 1 nit w Hne) as (P1 & P2 & P3 & P4 & _).
       destruct ((A5 attach_keep) w _ it rec top sub rest _ (NArr false (Some d) al (elems ++ [it])) nit P Htop Hit
                   eq_refl eq_refl P1 P2 P3 P4) as (w2 & E2 & A2).
@@ -1896,10 +1939,10 @@ Proof.
         destruct (sim_pop T w w2 k rec top 1 rest frest _ (IArray false (rev (t :: racc))) C Ttop
                     (fun x Hx _ => FR x Hx (fun H => H)) Sp5 F A2) as (w3 & E3 & P3' & C3 & F3).
         { apply node_tree_arr; [discriminate|]. eapply seqo_map_ext; [exact Fs'|]. intros x _ Hx. apply tupd_ext; assumption. }
-        bstep E3. apply (IH frest w3 top _ (tupd T top (IArray false (rev (t :: racc)))) k P3' C3 (tupd_same _ _ _) F3 Hk).
+        bstep E3. apply (IH frest w3 top _ (tupd T top (IArray false (rev (t :: racc)))) k P3' C3 (tupd_same _ _ _) F3).
       * destruct (N.eqb_spec (sub - 1) 0) as [|_]; [lia|].
         eexists. eexists. split; [reflexivity|].
-        eapply (sim_stay T w w2 k rec top (sub - 1) rest frest _ _ C Ttop (fun x Hx _ => FR x Hx (fun H => H)) Sp5 F A2).
+        left. eapply (sim_stay T w w2 k rec top (sub - 1) rest frest _ _ C Ttop (fun x Hx _ => FR x Hx (fun H => H)) Sp5 F A2).
         -- cbn [shape]. rewrite len_app. change (len [it]) with 1. lia.
         -- cbn [fnode]. split; [reflexivity|]. split; [reflexivity|exact Fs'].
   - (* maps *)
@@ -1921,7 +1964,7 @@ Proof.
                     (kids_map_val _ _ _ _ _ _) eq_refl P1 P2 P3 P4) as (w2 & E2 & A2).
         pose proof (attach_frame w _ w2 it top nit [] Hit P2 P3 E2) as FR.
         bstep E2. eexists. eexists. split; [reflexivity|]. rewrite append_map_indef_val. change (N.lxor 1 1) with 0.
-        eapply (sim_stay T w w2 k rec top 0 rest frest _ _ C Ttop (fun x Hx _ => FR x Hx (fun H => H)) Sp5 F A2).
+        left. eapply (sim_stay T w w2 k rec top 0 rest frest _ _ C Ttop (fun x Hx _ => FR x Hx (fun H => H)) Sp5 F A2).
         -- cbn [shape]. split; [discriminate|]. split; [exact Sal|]. split; [lia|]. discriminate.
         -- cbn [fnode mrep]. rewrite !len_app in *. change (len [(ka, Some it)]) with 1. change (len [(ka, @None addr)]) with 1 in *.
            split; [reflexivity|]. split.
@@ -1935,18 +1978,32 @@ Proof.
         assert (Fm' : mrep T (pairs ++ [(it, None)]) racc (Some t)) by (exists pairs, it; auto).
         destruct (N.lt_ge_cases (len pairs) al) as [Hlt|Hge].
         -- destruct data as [d|]; [|specialize (Sd eq_refl); lia]. destruct Hdok as [sz Hd].
-           bstep (add_key_room grant true top it w 1 d sz al pairs 1 nit Htop Hd Hit Hne Hlt). cbn [negb].
+           bstep (add_key_room refuse true top it w 1 d sz al pairs 1 nit Htop Hd Hit Hne Hlt). cbn [negb].
            destruct (w_push_props top 1 (NMap true (Some d) al (pairs ++ [(it, None)])) d it 1 nit w Hne) as (P1 & P2 & P3 & P4 & _).
            destruct ((A5 attach_keep) w _ it rec top 0 rest _ (NMap true (Some d) al (pairs ++ [(it, None)])) nit P Htop Hit
                        (kids_map_key _ _ _ _ _) eq_refl P1 P2 P3 P4) as (w2 & E2 & A2).
            pose proof (attach_frame w _ w2 it top nit [] Hit P2 P3 E2) as FR.
            bstep E2. eexists. eexists. split; [reflexivity|]. change (N.lxor 0 1) with 1.
-           eapply (sim_stay T w w2 k rec top 1 rest frest _ _ C Ttop (fun x Hx _ => FR x Hx (fun H => H)) Sp5 F A2).
+           left. eapply (sim_stay T w w2 k rec top 1 rest frest _ _ C Ttop (fun x Hx _ => FR x Hx (fun H => H)) Sp5 F A2).
            ++ cbn [shape]. split; [discriminate|]. split; [exact Sal|]. split; [lia|]. intros _. split; [discriminate|eauto].
            ++ cbn [fnode]. rewrite len_app. change (len [(it, @None addr)]) with 1.
               split; [reflexivity|]. split; [exact Fm'|]. split; [reflexivity|]. split; [lia|]. split; [lia|]. discriminate.
-        -- pose proof (grow_passes_pair al ltac:(lia)) as Gr. set (c := N.max 1 (2 * al)) in *.
-           bstep (add_key_granted grant top it w 1 data al pairs c (16 * c) 1 nit Hwf Htop Hdok Hit Hne Hge Gr eq_refl).
+        -- destruct (grow_req SZ_PAIR al) as [[c bytes]|] eqn:Gr.
+           2:{ bstep (add_key_guard refuse top it w 1 data al pairs Htop Hge Gr). cbn [negb].
+               destruct ((A5 fail_same) w _ it _ P (conj eq_refl eq_refl : same_heap w (w_log (AccR top) w))) as (w2 & E2 & U2).
+               bstep E2. eexists. eexists. split; [reflexivity|]. right. cbn [hcf hstack].
+               split; [|split; [reflexivity|exact U2]].
+               right. destruct (N.lt_ge_cases k (2 ^ 57)) as [Hk|Hk]; [|lia].
+               rewrite (grow_passes_pair al ltac:(lia)) in Gr. discriminate Gr. }
+           destruct (grow_req_spec SZ_PAIR al c bytes ltac:(unfold SZ_PAIR; lia) Sal Gr) as (Hc & Hcl & Hby & Hb64).
+           destruct (refuse (nreq w) bytes) eqn:Rf.
+           { bstep (add_key_refused refuse top it w 1 data al pairs c bytes Htop Hdok Hge Gr Rf). cbn [negb].
+             destruct ((A5 fail_same) w _ it _ P (conj eq_refl eq_refl : same_heap w
+                         (w_refused (EvRealloc data bytes None) (w_log (AccR top) w)))) as (w2 & E2 & U2).
+             bstep E2. eexists. eexists. split; [reflexivity|]. right. cbn [hcf hstack].
+             split; [exact (bad_refused _ _ _ Rf)|split; [reflexivity|exact U2]]. }
+           unfold SZ_PAIR in Hby. subst bytes.
+           bstep (add_key_granted refuse top it w 1 data al pairs c (16 * c) 1 nit Hwf Htop Hdok Hit Hne Hge Gr Rf).
            cbn [negb].
            assert (Hdd : forall d, data = Some d -> is_data w d) by (intros d ->; exact Hdok).
            destruct (w_push_grown_props top 1 (NMap true (Some (next w)) c (pairs ++ [(it, None)])) data (16 * c)
@@ -1960,7 +2017,7 @@ Proof.
              destruct data as [d|]; [|exact E]. cbn [HCont_proofs.opt_list In] in E. destruct E as [<-|[]].
              destruct Hdok as [s Hs]. destruct Hi as (rc & nx & Ex). congruence. }
            bstep E2. eexists. eexists. split; [reflexivity|]. change (N.lxor 0 1) with 1.
-           eapply (sim_stay T w w2 k rec top 1 rest frest _ _ C Ttop FR' Sp5 F A2).
+           left. eapply (sim_stay T w w2 k rec top 1 rest frest _ _ C Ttop FR' Sp5 F A2).
            ++ cbn [shape]. split; [discriminate|]. split; [lia|]. split; [lia|]. intros _. split; [discriminate|eauto].
            ++ cbn [fnode]. rewrite len_app. change (len [(it, @None addr)]) with 1.
               split; [reflexivity|]. split; [exact Fm'|]. split; [reflexivity|]. split; [lia|]. split; [lia|]. discriminate.
@@ -1985,9 +2042,9 @@ Proof.
                        (fun x Hx _ => FR x Hx (fun H => H)) Sp5 F A2) as (w3 & E3 & P3' & C3 & F3).
            { apply node_tree_map; [discriminate|]. eapply seqo_map_ext; [exact Fs'|]. intros x _ Hx.
              apply pair_of_ext; [apply tupd_ext; exact Ttop|exact Hx]. }
-           bstep E3. apply (IH frest w3 top _ (tupd T top (IMap false (rev ((kt, t) :: racc)))) k P3' C3 (tupd_same _ _ _) F3 Hk).
+           bstep E3. apply (IH frest w3 top _ (tupd T top (IMap false (rev ((kt, t) :: racc)))) k P3' C3 (tupd_same _ _ _) F3).
         -- eexists. eexists. split; [reflexivity|].
-           eapply (sim_stay T w w2 k rec top (sub - 1) rest frest _ _ C Ttop (fun x Hx _ => FR x Hx (fun H => H)) Sp5 F A2).
+           left. eapply (sim_stay T w w2 k rec top (sub - 1) rest frest _ _ C Ttop (fun x Hx _ => FR x Hx (fun H => H)) Sp5 F A2).
            ++ cbn [shape]. rewrite !len_app in *. change (len [(ka, Some it)]) with 1. change (len [(ka, @None addr)]) with 1 in Seq.
               split; [lia|]. split; [lia|]. split; [lia|].
               intros Ho. pose proof (odd_mod (sub - 1)) as Hm'. rewrite Ho in Hm'. lia.
@@ -1997,7 +2054,7 @@ Proof.
         pose proof (seqo_len _ _ Fm) as Hl. rewrite len_rev, len_map in Hl.
         assert (Hlt : len pairs < al) by lia.
         destruct (N.leb_spec al (len racc)) as [|_]; [lia|].
-        bstep (add_key_room grant false top it w 1 d sz al pairs 1 nit Htop Hd Hit Hne Hlt). cbn [negb].
+        bstep (add_key_room refuse false top it w 1 d sz al pairs 1 nit Htop Hd Hit Hne Hlt). cbn [negb].
         destruct (w_push_props top 1 (NMap false (Some d) al (pairs ++ [(it, None)])) d it 1 nit w Hne) as (P1 & P2 & P3 & P4 & _).
         destruct ((A5 attach_keep) w _ it rec top sub rest _ (NMap false (Some d) al (pairs ++ [(it, None)])) nit P Htop Hit
                     (kids_map_key _ _ _ _ _) eq_refl P1 P2 P3 P4) as (w2 & E2 & A2).
@@ -2006,7 +2063,7 @@ Proof.
         cbv zeta. rewrite !sub64_le by lia.
         destruct (N.eqb_spec (sub - 1) 0) as [Hz|Hnz]; [lia|].
         eexists. eexists. split; [reflexivity|].
-        eapply (sim_stay T w w2 k rec top (sub - 1) rest frest _ _ C Ttop (fun x Hx _ => FR x Hx (fun H => H)) Sp5 F A2).
+        left. eapply (sim_stay T w w2 k rec top (sub - 1) rest frest _ _ C Ttop (fun x Hx _ => FR x Hx (fun H => H)) Sp5 F A2).
         -- cbn [shape]. rewrite len_app. change (len [(it, @None addr)]) with 1.
            split; [lia|]. split; [lia|]. split; [lia|]. intros _. eauto.
         -- cbn [fnode mrep]. split; [reflexivity|]. split; [reflexivity|]. split; [exists pairs, it; auto|]. cbn [is_some].
@@ -2023,7 +2080,7 @@ Proof.
     destruct (sim_pop T w w2 k rec top 1 rest frest _ (ITag v t) C Ttop
                 (fun x Hx _ => FR x Hx (fun H => H)) Sp5 F A2) as (w3 & E3 & P3' & C3 & F3).
     { cbn [node_tree]. rewrite tupd_other by (intros E; apply Hne; symmetry; exact E). rewrite Ht. reflexivity. }
-    bstep E3. apply (IH frest w3 top _ (tupd T top (ITag v t)) k P3' C3 (tupd_same _ _ _) F3 Hk).
+    bstep E3. apply (IH frest w3 top _ (tupd T top (ITag v t)) k P3' C3 (tupd_same _ _ _) F3).
 Qed.
 
 
@@ -2071,24 +2128,28 @@ Proof. intros Hwf (rc & n & E). eapply wf_lt; eassumption. Qed.
 Lemma push_ctx_sim w res sub stk fs n T k f' :
   PRE w res stk -> heap w res = Some (CItem 1 n) -> shape n sub -> CONS T w -> T res = None ->
   Forall2 (frep T w k) stk fs -> fnode T (k + 1) n sub f' ->
-  exists c w', push_ctx grant L res sub stk w = Ret c w' /\ SIMPOST (k + 1) c w' (push L f' fs).
+  exists c w', push_ctx refuse L res sub stk w = Ret c w' /\ SIMPOSTr (k + 1) c w' (push L f' fs).
 Proof. intros P Hres Sh C Tres F Fn.
   destruct ((A5 push_ctx_spec) w res sub stk n P Hres Sh) as (c & w' & E & HP).
   exists c, w'. split; [exact E|].
   unfold HOps.push_ctx in E. unfold push. rewrite <- (Forall2_len _ _ _ F).
-  pose proof ((A5 PRE_fresh) _ _ _ P) as Fr. destruct (PRE_it grant L w0 own ownd _ _ _ P) as (_ & _ & Lres).
+  pose proof ((A5 PRE_fresh) _ _ _ P) as Fr. destruct (PRE_it refuse L w0 own ownd _ _ _ P) as (_ & _ & Lres).
   pose proof P as (I & Gw & R & Hr & S). pose proof (Inv_wf _ _ _ _ I) as Hwf.
   destruct (len stk =? L).
   - destruct ((A5 fail_release) w res stk I Gw Hr Fr) as (w2 & E2 & U2).
     rewrite (bind_Ret _ _ _ _ _ E2) in E. inversion E; subst c w'.
-    apply simpost_fail; [reflexivity|reflexivity|reflexivity|left; reflexivity|exact U2].
-  - rewrite (bind_Ret _ _ _ _ _ (malloc_granted grant SZ_REC (CData SZ_REC) w eq_refl)) in E. inversion E; subst c w'.
+    left. apply simpost_fail; [reflexivity|reflexivity|reflexivity|left; reflexivity|exact U2].
+  - destruct (refuse (nreq w) SZ_REC) eqn:Rf.
+    { rewrite (bind_Ret _ _ _ _ _ (malloc_refused refuse SZ_REC (CData SZ_REC) w Rf)) in E.
+      unfold bind in E. destruct (decref res _) as [u w2|kf]; [|discriminate E]. inversion E; subst c w'.
+      right. split; [exact (bad_refused _ _ _ Rf)|]. split; [reflexivity|]. apply (post_cf _ _ HP). reflexivity. }
+    rewrite (bind_Ret _ _ _ _ _ (malloc_granted refuse SZ_REC (CData SZ_REC) w Rf)) in E. inversion E; subst c w'.
     pose proof (post_ok_inv _ _ HP eq_refl eq_refl) as HL. cbn [hstack] in HL.
     set (w1 := w_malloc SZ_REC (CData SZ_REC) w) in *.
     assert (FRa : forall x, is_item w x -> heap w1 x = heap w x).
     { intros x Hx. pose proof (wf_item_lt w x Hwf Hx). subst w1. wsimpl. apply upd_other. lia. }
     destruct (sim_alloc T w w1 k (k + 1) stk fs C ltac:(lia) FRa F) as [C1 F1].
-    apply simpost_stay; try reflexivity; [exact HL|].
+    left. apply simpost_stay; try reflexivity; [exact HL|].
     exists T. split; [exact C1|]. cbn [stack ok_stack]. constructor; [|exact F1].
     split; [exact Tres|]. exists n. cbn [sitem fst snd]. split; [|exact Fn].
     rewrite FRa; [exact Hres|]. exists 1, n. exact Hres. Qed.
@@ -2099,19 +2160,23 @@ Proof. intros Hwf F Hr. destruct (frep_item T w k stk fs r F Hr) as [Hi _].
 
 (* a fresh childless item: it is labelled and appended *)
 Lemma leaf_cb_sim w stk fs k sz n t :
-  LI w [] stk -> SIMS k w stk fs -> kids n = [] -> dblocks n = [] -> (forall T, node_tree T n = Some t) -> k < 2 ^ 57 ->
-  exists c w', leaf_cb grant (malloc grant sz (CItem 1 n)) stk w = Ret c w' /\ SIMPOST (k + 1) c w' (append t fs).
-Proof. intros H (T & C & F) K D Nt Hk. unfold leaf_cb. pose proof ((A5 LI_wf) _ _ _ H) as Hwf.
+  LI w [] stk -> SIMS k w stk fs -> kids n = [] -> dblocks n = [] -> (forall T, node_tree T n = Some t) ->
+  exists c w', leaf_cb refuse (malloc refuse sz (CItem 1 n)) stk w = Ret c w' /\ SIMPOSTr (k + 1) c w' (append t fs).
+Proof. intros H (T & C & F) K D Nt. unfold leaf_cb. pose proof ((A5 LI_wf) _ _ _ H) as Hwf.
   destruct ((A5 malloc_item_spec) w stk sz n H K D) as (r & w1 & E & Hr).
-  rewrite (malloc_granted grant sz _ w eq_refl) in E. inversion E; subst r w1. clear E.
-  bstep (malloc_granted grant sz (CItem 1 n) w eq_refl).
+  destruct (refuse (nreq w) sz) eqn:Rf.
+  { rewrite (malloc_refused refuse sz _ w Rf) in E. inversion E; subst r w1. clear E.
+    bstep (malloc_refused refuse sz (CItem 1 n) w Rf). eexists. eexists. split; [reflexivity|].
+    right. split; [exact (bad_refused _ _ _ Rf)|]. split; [reflexivity|]. apply (A5 LI_UI). exact Hr. }
+  rewrite (malloc_granted refuse sz _ w Rf) in E. inversion E; subst r w1. clear E.
+  bstep (malloc_granted refuse sz (CItem 1 n) w Rf).
   destruct Hr as [P Hn]. set (w1 := w_malloc sz (CItem 1 n) w) in *.
   assert (FRa : forall x, is_item w x -> heap w1 x = heap w x).
   { intros x Hx. pose proof (wf_item_lt w x Hwf Hx) as Hlt. subst w1. wsimpl. apply upd_other. clear - Hlt. lia. }
   destruct (sim_alloc T w w1 k k stk fs C ltac:(lia) FRa F) as [C1 F1].
   destruct (sim_label T w1 k stk fs (next w) t 1 n C1 (cons_dead T w (next w) C Hwf (N.le_refl _)) Hn (Nt _)
               (fun r Hr => stk_lt w stk fs T k r Hwf F Hr) F1) as (C2 & F2 & T2).
-  apply (happend_sim stk fs w1 (next w) t _ k P C2 T2 F2 Hk). Qed.
+  apply (happend_sim stk fs w1 (next w) t _ k P C2 T2 F2). Qed.
 
 
 (* the P callback for a definite string, once the size check has passed *)
@@ -2127,12 +2192,26 @@ Definition str_cbP (text : bool) (d : list N) (fs : list frame) : bctx :=
     | _ => append (IBytes d) fs
     end.
 
-Lemma string_cb_sim w stk fs k text d : LI w [] stk -> SIMS k w stk fs -> k < 2 ^ 57 ->
-  exists c w', string_cb grant text d stk w = Ret c w' /\ SIMPOST (k + 1) c w' (str_cbP text d fs).
-Proof. intros H (T & C & F) Hk. unfold string_cb. pose proof ((A5 LI_wf) _ _ _ H) as Hwf0.
-  bstep (malloc_granted grant (len d) (CData (len d)) w eq_refl).
+Lemma string_cb_sim w stk fs k text d : LI w [] stk -> SIMS k w stk fs ->
+  exists c w', string_cb refuse text d stk w = Ret c w' /\ SIMPOSTr (k + 1) c w' (str_cbP text d fs).
+Proof. intros H (T & C & F). unfold string_cb. pose proof ((A5 LI_wf) _ _ _ H) as Hwf0.
+  destruct (refuse (nreq w) (len d)) eqn:R1.
+  { bstep (malloc_refused refuse (len d) (CData (len d)) w R1). eexists. eexists. split; [reflexivity|].
+    right. split; [exact (bad_refused _ _ _ R1)|]. split; [reflexivity|]. apply (A5 LI_UI).
+    apply ((A5 LI_heq) w _ stk H); [intros b; reflexivity|wsimpl; lia]. }
+  bstep (malloc_granted refuse (len d) (CData (len d)) w R1).
   set (w1 := w_malloc (len d) (CData (len d)) w). unfold new_definite_string.
-  bstep (malloc_granted grant SZ_ITEM (CItem 1 (NStr text None [])) w1 eq_refl).
+  destruct (refuse (nreq w1) SZ_ITEM) eqn:R2.
+  { bstep (malloc_refused refuse SZ_ITEM (CItem 1 (NStr text None [])) w1 R2).
+    assert (Hh : heap (w_refused (EvMalloc SZ_ITEM None) w1) (next w) = Some (CData (len d)))
+      by (subst w1; wsimpl; apply upd_same).
+    bstep (free_spec (next w) _ _ Hh). eexists. eexists. split; [reflexivity|].
+    right. split; [exact (bad_refused _ _ _ R2)|]. split; [reflexivity|]. apply (A5 LI_UI).
+    apply ((A5 LI_heq) w _ stk H).
+    - intros b. subst w1. wsimpl. unfold upd. destruct (N.eqb_spec b (next w)) as [->|]; [|reflexivity].
+      symmetry. apply Hwf0. lia.
+    - subst w1. wsimpl. lia. }
+  bstep (malloc_granted refuse SZ_ITEM (CItem 1 (NStr text None [])) w1 R2).
   change (next w1) with (next w + 1).
   set (w2 := w_malloc SZ_ITEM (CItem 1 (NStr text None [])) w1).
   assert (Hc2 : heap w2 (next w + 1) = Some (CItem 1 (NStr text None []))) by (subst w2 w1; wsimpl; apply upd_same).
@@ -2157,12 +2236,12 @@ Proof. intros H (T & C & F) Hk. unfold string_cb. pose proof ((A5 LI_wf) _ _ _ H
   set (T' := tupd T chunk tch) in *.
   assert (Hcof : chunk_of T' text chunk = Some d).
   { unfold chunk_of. rewrite T2. subst tch. destruct text; reflexivity. }
-  clearbody w3 chunk T'. clear Hc2 w2 w1 H Hwf0 C F FRa C1 F1 Hna Hch w T.
+  clearbody w3 chunk T'. clear Hc2 w2 R2 w1 R1 H Hwf0 C F FRa C1 F1 Hna Hch w T.
   rename w3 into w, T' into T, C2 into C, F2 into F, T2 into Ht.
   assert (Happ : forall w', PRE w' chunk stk -> CONS T w' -> Forall2 (frep T w' k) stk fs ->
             str_cbP text d fs = append tch fs ->
-            exists c w'', happend grant chunk stk w' = Ret c w'' /\ SIMPOST (k + 1) c w'' (str_cbP text d fs)).
-  { intros w' P' C' F' ->. apply (happend_sim stk fs w' chunk tch T k P' C' Ht F' Hk). }
+            exists c w'', happend refuse chunk stk w' = Ret c w'' /\ SIMPOSTr (k + 1) c w'' (str_cbP text d fs)).
+  { intros w' P' C' F' ->. apply (happend_sim stk fs w' chunk tch T k P' C' Ht F'). }
   destruct stk as [|[[rec top] sub] rest].
   { inversion F; subst. apply Happ; try assumption. unfold str_cbP, tch. destruct text; reflexivity. }
   inversion F as [|r f rest' frest Hf Hrest]; subst.
@@ -2211,7 +2290,7 @@ Proof. intros H (T & C & F) Hk. unfold string_cb. pose proof ((A5 LI_wf) _ _ _ H
   assert (Hkc : chunk_ok text nit).
   { destruct (C chunk tch Ht) as (rcc & ncc & Ecc & Ncc). rewrite Hit in Ecc. injection Ecc as _ <-.
     destruct (node_tree_str T nit text d Ncc) as (dd & ->). unfold chunk_ok. destruct text; [exact I|eauto]. }
-  destruct (add_chunk_spec grant top chunk w 1 text hdr hsz arr cap0 chunks 1 nit Hwf Htop Hh Hb Hah Hit Hkc Hne Scap)
+  destruct (add_chunk_spec refuse top chunk w 1 text hdr hsz arr cap0 chunks 1 nit Hwf Htop Hh Hb Hah Hit Hkc Hne Scap)
     as [Hroom Hfull].
   assert (Fs' : seqo (map (chunk_of T text) (chunks ++ [chunk])) = Some (rev (d :: racc)))
     by (cbn [rev]; apply seqo_snoc; assumption).
@@ -2219,10 +2298,19 @@ Proof. intros H (T & C & F) Hk. unfold string_cb. pose proof ((A5 LI_wf) _ _ _ H
             forall f', f' = (if text then FText (d :: racc) else FBytes (d :: racc)) -> fnode T (k + 1) n' sub f')
     by (intros n' X f' ->; exact X).
   destruct (N.eq_dec (len chunks) cap0) as [Heq|Hneq].
-  - specialize (Hfull Heq). rewrite (grow_passes cap0 ltac:(lia)) in Hfull. cbn beta iota in Hfull.
-    destruct Hfull as (Hc & Hlt & Hby & Hb64 & Hfull). unfold grant in Hfull.
+  - specialize (Hfull Heq). destruct (grow_req SZ_PTR cap0) as [[c bytes]|] eqn:Gr.
+    2:{ destruct Hfull as (w1 & E1 & SH & _). bstep E1.
+        destruct ((A5 fail_same) w w1 chunk _ P SH) as (w2 & E2 & U2). bstep E2.
+        eexists. eexists. split; [reflexivity|]. right. cbn [hcf hstack negb]. split; [|split; [reflexivity|exact U2]].
+        right. destruct (N.lt_ge_cases k (2 ^ 57)) as [Hk|Hk]; [|lia].
+        rewrite (grow_passes cap0 ltac:(lia)) in Gr. discriminate Gr. }
+    destruct Hfull as (Hc & Hlt & Hby & Hb64 & Hfull). destruct (refuse (nreq w) bytes) eqn:Rf.
+    { destruct Hfull as (w1 & E1 & SH & _). bstep E1.
+      destruct ((A5 fail_same) w w1 chunk _ P SH) as (w2 & E2 & U2). bstep E2.
+      eexists. eexists. split; [reflexivity|]. right. cbn [hcf hstack negb].
+      split; [exact (bad_refused _ _ _ Rf)|split; [reflexivity|exact U2]]. }
     destruct Hfull as (w1 & E1 & P1 & P2 & P3 & P4 & P5 & P6 & _). bstep E1.
-    set (c := N.max 1 (2 * cap0)) in *.
+    unfold SZ_PTR in Hby. subst bytes.
     destruct ((A5 attach_moved) w w1 chunk rec top sub rest _ (NChunked text hdr (Some (next w)) c (chunks ++ [chunk])) nit
                 arr [hdr] (8 * c) P Htop Hit eq_refl eq_refl eq_refl P1 P2 P3 P4 P5 P6) as (w2 & E2 & A2).
     pose proof (attach_frame w w1 w2 chunk top nit _ Hit P2 P5 E2) as FR.
@@ -2231,7 +2319,7 @@ Proof. intros H (T & C & F) Hk. unfold string_cb. pose proof ((A5 LI_wf) _ _ _ H
       destruct arr as [ar|]; [|exact E]. cbn [HCont_proofs.opt_list In] in E. destruct E as [<-|[]].
       destruct Hb as [s Hs]. destruct Hi as (rc & nx & Ex). congruence. }
     bstep E2. eexists. eexists. split; [reflexivity|]. cbn [negb].
-    eapply (sim_stay T w w2 k rec top sub rest frest _ _ C Ttop FR' Sp5 Flr A2).
+    left. eapply (sim_stay T w w2 k rec top sub rest frest _ _ C Ttop FR' Sp5 Flr A2).
     + cbn [shape]. rewrite len_app. change (len [chunk]) with 1. split; [discriminate|]. split; lia.
     + destruct text; cbn [fnode]; rewrite len_app; change (len [chunk]) with 1;
         (split; [reflexivity|]); (split; [exact Fs'|]); (split; [lia|]); (split; [lia|]); discriminate.
@@ -2240,7 +2328,7 @@ Proof. intros H (T & C & F) Hk. unfold string_cb. pose proof ((A5 LI_wf) _ _ _ H
                 eq_refl eq_refl P1 P2 P3 P4) as (w2 & E2 & A2).
     pose proof (attach_frame w w1 w2 chunk top nit [] Hit P2 P3 E2) as FR.
     bstep E2. eexists. eexists. split; [reflexivity|]. cbn [negb].
-    eapply (sim_stay T w w2 k rec top sub rest frest _ _ C Ttop (fun x Hx _ => FR x Hx (fun H => H)) Sp5 Flr A2).
+    left. eapply (sim_stay T w w2 k rec top sub rest frest _ _ C Ttop (fun x Hx _ => FR x Hx (fun H => H)) Sp5 Flr A2).
     + cbn [shape]. rewrite len_app. change (len [chunk]) with 1. split; [exact Sa|]. split; lia.
     + assert (Hd' : chunks ++ [chunk] <> [] -> arr <> None).
       { intros _. destruct arr; [discriminate|]. specialize (Sa eq_refl). lia. }
@@ -2282,16 +2370,26 @@ Proof. intros Hcap Hs Hn E. unfold alloc_ok. rewrite E.
   change (2 ^ 64) with 18446744073709551616 in Hb. lia. Qed.
 
 Lemma hcallback_sim w stk fs k tk :
-  SIZE_MAX <= cap -> LI w [] stk -> SIMS k w stk fs -> tok_ok tk -> tok_fits tk -> k < 2 ^ 57 ->
-  exists c w', hcallback grant L tk stk w = Ret c w' /\ SIMPOST (k + 1) c w' (callback L cap tk fs).
-Proof. intros Hcap H HS Tk Tf Hk. pose proof ((A5 LI_wf) _ _ _ H) as Hwf.
+  SIZE_MAX <= cap -> LI w [] stk -> SIMS k w stk fs -> tok_ok tk -> tok_fits tk ->
+  exists c w', hcallback refuse L tk stk w = Ret c w' /\ SIMPOSTr (k + 1) c w' (callback L cap tk fs).
+Proof. intros Hcap H HS Tk Tf. pose proof ((A5 LI_wf) _ _ _ H) as Hwf.
+  (* a refused request: the callback reports a creation failure over an unchanged heap *)
+  assert (CF : forall i sz w1 cP, refuse i sz = true -> LI w1 [] stk ->
+            exists c w', ret (cf_ctx stk) w1 = Ret c w' /\ SIMPOSTr (k + 1) c w' cP).
+  { intros i sz w1 cP R H1. eexists. eexists. split; [reflexivity|]. right. split; [exact (bad_refused _ _ _ R)|].
+    split; [reflexivity|]. apply (A5 LI_UI). exact H1. }
   destruct tk as [iw v|iw v|off d| |off d| |n| |n| |v|fw bits|b| | | ]; cbn [HOps.hcallback callback].
   - apply leaf_cb_sim; try assumption; reflexivity.
   - apply leaf_cb_sim; try assumption; reflexivity.
-  - cbn [tok_fits] in Tf. destruct (N.ltb_spec cap (len d)) as [|_]; [lia|]. apply (string_cb_sim w stk fs k false d H HS Hk).
+  - cbn [tok_fits] in Tf. destruct (N.ltb_spec cap (len d)) as [|_]; [lia|]. apply (string_cb_sim w stk fs k false d H HS).
   - (* indefinite byte string *)
     destruct HS as (T & C & F).
-    pose proof (new_indefinite_string_cases grant false w) as E. cbv beta iota zeta in E. unfold grant in E. bstep E.
+    pose proof (new_indefinite_string_cases refuse false w) as E. cbv beta iota zeta in E.
+    destruct (refuse (nreq w) SZ_ITEM) eqn:R1.
+    { bstep E. apply (CF _ _ _ _ R1). apply (A5 fail1_LI). exact H. }
+    destruct (refuse (nreq w + 1) SZ_ISD) eqn:R2.
+    { bstep E. apply (CF _ _ _ _ R2). apply (A5 fail2_LI). exact H. }
+    bstep E.
     destruct ((A5 built_pre) w stk SZ_ITEM (CItem 1 (NStr false None [])) SZ_ISD
                 (NChunked false (next w + 1) None 0 []) H eq_refl eq_refl) as [P Hn].
     destruct (built_sim T w k stk fs SZ_ITEM (CItem 1 (NStr false None [])) SZ_ISD
@@ -2299,9 +2397,14 @@ Proof. intros Hcap H HS Tk Tf Hk. pose proof ((A5 LI_wf) _ _ _ H) as Hwf.
     eapply (push_ctx_sim _ (next w) 0 stk fs _ T k (FBytes []) P Hn); [|exact C1|exact Tn|exact F1|].
     + cbn [shape]. split; [reflexivity|]. split; [lia|]. change (len (@nil addr)) with 0. lia.
     + cbn [fnode]. change (len (@nil addr)) with 0. split; [reflexivity|]. split; [reflexivity|]. split; [lia|]. split; [lia|]. intros X; contradiction.
-  - cbn [tok_fits] in Tf. destruct (N.ltb_spec cap (len d)) as [|_]; [lia|]. apply (string_cb_sim w stk fs k true d H HS Hk).
+  - cbn [tok_fits] in Tf. destruct (N.ltb_spec cap (len d)) as [|_]; [lia|]. apply (string_cb_sim w stk fs k true d H HS).
   - destruct HS as (T & C & F).
-    pose proof (new_indefinite_string_cases grant true w) as E. cbv beta iota zeta in E. unfold grant in E. bstep E.
+    pose proof (new_indefinite_string_cases refuse true w) as E. cbv beta iota zeta in E.
+    destruct (refuse (nreq w) SZ_ITEM) eqn:R1.
+    { bstep E. apply (CF _ _ _ _ R1). apply (A5 fail1_LI). exact H. }
+    destruct (refuse (nreq w + 1) SZ_ISD) eqn:R2.
+    { bstep E. apply (CF _ _ _ _ R2). apply (A5 fail2_LI). exact H. }
+    bstep E.
     destruct ((A5 built_pre) w stk SZ_ITEM (CItem 1 (NStr true None [])) SZ_ISD
                 (NChunked true (next w + 1) None 0 []) H eq_refl eq_refl) as [P Hn].
     destruct (built_sim T w k stk fs SZ_ITEM (CItem 1 (NStr true None [])) SZ_ISD
@@ -2311,12 +2414,16 @@ Proof. intros Hcap H HS Tk Tf Hk. pose proof ((A5 LI_wf) _ _ _ H) as Hwf.
     + cbn [fnode]. change (len (@nil addr)) with 0. split; [reflexivity|]. split; [reflexivity|]. split; [lia|]. split; [lia|]. intros X; contradiction.
   - (* definite array *)
     cbn [tok_ok] in Tk. destruct HS as (T & C & F).
-    pose proof (new_definite_array_cases grant n w) as E. cbv beta iota zeta in E. unfold grant in E.
+    pose proof (new_definite_array_cases refuse n w) as E. cbv beta iota zeta in E.
     change 8 with SZ_PTR.
+    destruct (refuse (nreq w) SZ_ITEM) eqn:R1.
+    { bstep E. apply (CF _ _ _ _ R1). apply (A5 fail1_LI). exact H. }
     destruct (alloc_multiple_req 64 SZ_PTR n) as [bytes|] eqn:A.
     2:{ bstep E. unfold alloc_ok. rewrite A. cbn [negb]. eexists. eexists. split; [reflexivity|].
-        apply simpost_fail; [reflexivity|reflexivity|reflexivity|left; reflexivity|].
+        left. apply simpost_fail; [reflexivity|reflexivity|reflexivity|left; reflexivity|].
         apply (A5 LI_UI). apply (A5 fail_guard_LI). exact H. }
+    destruct (refuse (nreq w + 1) bytes) eqn:R2.
+    { bstep E. apply (CF _ _ _ _ R2). apply (A5 fail2_LI). exact H. }
     rewrite (alloc_ok_big SZ_PTR n bytes Hcap ltac:(unfold SZ_PTR; lia) Tk A). cbn [negb].
     bstep E. destruct ((A5 built_pre) w stk SZ_ITEM (CItem 1 (NArr false None n [])) bytes
                          (NArr false (Some (next w + 1)) n []) H eq_refl eq_refl) as [P Hn].
@@ -2327,24 +2434,31 @@ Proof. intros Hcap H HS Tk Tf Hk. pose proof ((A5 LI_wf) _ _ _ H) as Hwf.
       * cbn [shape]. change (len (@nil addr)) with 0. lia.
       * cbn [fnode]. split; [reflexivity|]. split; reflexivity.
     + destruct (sim_label T _ k stk fs (next w) (IArray false []) 1 _ C1 Tn Hn eq_refl Hna F1) as (C2 & F2 & T2).
-      apply (happend_sim stk fs _ (next w) _ _ k P C2 T2 F2 Hk).
+      apply (happend_sim stk fs _ (next w) _ _ k P C2 T2 F2).
   - (* indefinite array *)
     destruct HS as (T & C & F). unfold new_indefinite_array.
     destruct ((A5 malloc_item_spec) w stk SZ_ITEM (NArr true None 0 []) H eq_refl eq_refl) as (r & w1 & E & Hr).
-    rewrite (malloc_granted grant SZ_ITEM _ w eq_refl) in E. inversion E; subst r w1. clear E.
-    bstep (malloc_granted grant SZ_ITEM (CItem 1 (NArr true None 0 [])) w eq_refl). destruct Hr as [P Hn].
+    destruct (refuse (nreq w) SZ_ITEM) eqn:R1.
+    { rewrite (malloc_refused refuse SZ_ITEM _ w R1) in E. inversion E; subst r w1. clear E.
+      bstep (malloc_refused refuse SZ_ITEM (CItem 1 (NArr true None 0 [])) w R1). apply (CF _ _ _ _ R1). exact Hr. }
+    rewrite (malloc_granted refuse SZ_ITEM _ w R1) in E. inversion E; subst r w1. clear E.
+    bstep (malloc_granted refuse SZ_ITEM (CItem 1 (NArr true None 0 [])) w R1). destruct Hr as [P Hn].
     destruct (malloc_sim T w k stk fs SZ_ITEM (NArr true None 0 []) Hwf C F) as (C1 & F1 & Tn & _).
     eapply (push_ctx_sim _ (next w) 0 stk fs _ T k (FArr true [] 0 0) P Hn); [|exact C1|exact Tn|exact F1|].
     + cbn [shape]. split; [reflexivity|lia].
     + cbn [fnode]. change (len (@nil addr)) with 0. split; [reflexivity|]. split; [lia|]. split; [lia|]. intros X; contradiction.
   - (* definite map *)
     cbn [tok_ok] in Tk. destruct HS as (T & C & F).
-    pose proof (new_definite_map_cases grant n w) as E. cbv beta iota zeta in E. unfold grant in E.
+    pose proof (new_definite_map_cases refuse n w) as E. cbv beta iota zeta in E.
     change 16 with SZ_PAIR.
+    destruct (refuse (nreq w) SZ_ITEM) eqn:R1.
+    { bstep E. apply (CF _ _ _ _ R1). apply (A5 fail1_LI). exact H. }
     destruct (alloc_multiple_req 64 SZ_PAIR n) as [bytes|] eqn:A.
     2:{ bstep E. unfold alloc_ok. rewrite A. cbn [negb]. eexists. eexists. split; [reflexivity|].
-        apply simpost_fail; [reflexivity|reflexivity|reflexivity|left; reflexivity|].
+        left. apply simpost_fail; [reflexivity|reflexivity|reflexivity|left; reflexivity|].
         apply (A5 LI_UI). apply (A5 fail_guard_LI). exact H. }
+    destruct (refuse (nreq w + 1) bytes) eqn:R2.
+    { bstep E. apply (CF _ _ _ _ R2). apply (A5 fail2_LI). exact H. }
     rewrite (alloc_ok_big SZ_PAIR n bytes Hcap ltac:(unfold SZ_PAIR; lia) Tk A). cbn [negb].
     bstep E. destruct ((A5 built_pre) w stk SZ_ITEM (CItem 1 (NMap false None n [])) bytes
                          (NMap false (Some (next w + 1)) n []) H eq_refl eq_refl) as [P Hn].
@@ -2360,12 +2474,15 @@ Proof. intros Hcap H HS Tk Tf Hk. pose proof ((A5 LI_wf) _ _ _ H) as Hwf.
         rewrite (map_sub_nowrap n bytes Tk A). destruct (N.odd (2 * n)) eqn:Ho; [|reflexivity].
         pose proof (odd_mod (2 * n)) as Hm. rewrite Ho in Hm. lia.
     + destruct (sim_label T _ k stk fs (next w) (IMap false []) 1 _ C1 Tn Hn eq_refl Hna F1) as (C2 & F2 & T2).
-      apply (happend_sim stk fs _ (next w) _ _ k P C2 T2 F2 Hk).
+      apply (happend_sim stk fs _ (next w) _ _ k P C2 T2 F2).
   - (* indefinite map *)
     destruct HS as (T & C & F). unfold new_indefinite_map.
     destruct ((A5 malloc_item_spec) w stk SZ_ITEM (NMap true None 0 []) H eq_refl eq_refl) as (r & w1 & E & Hr).
-    rewrite (malloc_granted grant SZ_ITEM _ w eq_refl) in E. inversion E; subst r w1. clear E.
-    bstep (malloc_granted grant SZ_ITEM (CItem 1 (NMap true None 0 [])) w eq_refl). destruct Hr as [P Hn].
+    destruct (refuse (nreq w) SZ_ITEM) eqn:R1.
+    { rewrite (malloc_refused refuse SZ_ITEM _ w R1) in E. inversion E; subst r w1. clear E.
+      bstep (malloc_refused refuse SZ_ITEM (CItem 1 (NMap true None 0 [])) w R1). apply (CF _ _ _ _ R1). exact Hr. }
+    rewrite (malloc_granted refuse SZ_ITEM _ w R1) in E. inversion E; subst r w1. clear E.
+    bstep (malloc_granted refuse SZ_ITEM (CItem 1 (NMap true None 0 [])) w R1). destruct Hr as [P Hn].
     destruct (malloc_sim T w k stk fs SZ_ITEM (NMap true None 0 []) Hwf C F) as (C1 & F1 & Tn & _).
     eapply (push_ctx_sim _ (next w) 0 stk fs _ T k (FMap true [] None 0 0) P Hn); [|exact C1|exact Tn|exact F1|].
     + cbn [shape]. split; [reflexivity|]. split; [lia|]. split; [lia|]. discriminate.
@@ -2374,8 +2491,11 @@ Proof. intros Hcap H HS Tk Tf Hk. pose proof ((A5 LI_wf) _ _ _ H) as Hwf.
   - (* tag *)
     destruct HS as (T & C & F). unfold new_tag.
     destruct ((A5 malloc_item_spec) w stk SZ_ITEM (NTag v None) H eq_refl eq_refl) as (r & w1 & E & Hr).
-    rewrite (malloc_granted grant SZ_ITEM _ w eq_refl) in E. inversion E; subst r w1. clear E.
-    bstep (malloc_granted grant SZ_ITEM (CItem 1 (NTag v None)) w eq_refl). destruct Hr as [P Hn].
+    destruct (refuse (nreq w) SZ_ITEM) eqn:R1.
+    { rewrite (malloc_refused refuse SZ_ITEM _ w R1) in E. inversion E; subst r w1. clear E.
+      bstep (malloc_refused refuse SZ_ITEM (CItem 1 (NTag v None)) w R1). apply (CF _ _ _ _ R1). exact Hr. }
+    rewrite (malloc_granted refuse SZ_ITEM _ w R1) in E. inversion E; subst r w1. clear E.
+    bstep (malloc_granted refuse SZ_ITEM (CItem 1 (NTag v None)) w R1). destruct Hr as [P Hn].
     destruct (malloc_sim T w k stk fs SZ_ITEM (NTag v None) Hwf C F) as (C1 & F1 & Tn & _).
     eapply (push_ctx_sim _ (next w) 1 stk fs _ T k (FTag v) P Hn); [|exact C1|exact Tn|exact F1|]; reflexivity.
   - apply leaf_cb_sim; try assumption; reflexivity.
@@ -2386,7 +2506,7 @@ Proof. intros Hcap H HS Tk Tf Hk. pose proof ((A5 LI_wf) _ _ _ H) as Hwf.
     destruct HS as (T & C & F).
     destruct stk as [|[[rec top] sub] rest].
     { inversion F; subst. eexists. eexists. split; [reflexivity|].
-      apply simpost_fail; [reflexivity|reflexivity|reflexivity|right; reflexivity|]. apply (A5 LI_UI). exact H. }
+      left. apply simpost_fail; [reflexivity|reflexivity|reflexivity|right; reflexivity|]. apply (A5 LI_UI). exact H. }
     inversion F as [|r f rest' frest Hf Hrest]; subst.
     destruct Hf as (Ttop & n & Htop0 & Fn). cbn [sitem fst snd] in Ttop, Htop0, Fn.
     set (wl := w_log (AccR top) w).
@@ -2398,15 +2518,15 @@ Proof. intros Hcap H HS Tk Tf Hk. pose proof ((A5 LI_wf) _ _ _ H) as Hwf.
     destruct ((A5 LI_att) _ _ _ _ _ Hl) as (n2 & A & Sh). pose proof A as (_ & _ & _ & Htop2 & _ & _ & S5).
     assert (n2 = n) by congruence. subst n2. clear Htop2.
     assert (Hse : forall cP, fault cP = false -> creation_failed cP = false -> syntax_error cP = true ->
-              exists c w', ret (mkhctx ((rec, top, sub) :: rest) None false true) w = Ret c w' /\ SIMPOST (k + 1) c w' cP).
+              exists c w', ret (mkhctx ((rec, top, sub) :: rest) None false true) w = Ret c w' /\ SIMPOSTr (k + 1) c w' cP).
     { intros cP X1 X2 X3. eexists. eexists. split; [reflexivity|].
-      apply simpost_fail; [exact X1|symmetry; exact X2|symmetry; exact X3|right; reflexivity|]. apply (A5 LI_UI). exact Hl. }
+      left. apply simpost_fail; [exact X1|symmetry; exact X2|symmetry; exact X3|right; reflexivity|]. apply (A5 LI_UI). exact Hl. }
     assert (Hcl : forall t', node_tree (tupd T top t') n = Some t' ->
-              exists c w', (stack_pop (rec, top, sub) ;;; happend grant top rest) w = Ret c w' /\
-                           SIMPOST (k + 1) c w' (append t' frest)).
+              exists c w', (stack_pop (rec, top, sub) ;;; happend refuse top rest) w = Ret c w' /\
+                           SIMPOSTr (k + 1) c w' (append t' frest)).
     { intros t' Nt.
       destruct (sim_pop T w w k rec top sub rest frest n t' C Ttop (fun x _ _ => eq_refl) S5 F A Nt) as (w3 & E3 & P3 & C3 & F3).
-      bstep E3. apply (happend_sim rest frest w3 top t' _ k P3 C3 (tupd_same _ _ _) F3 Hk). }
+      bstep E3. apply (happend_sim rest frest w3 top t' _ k P3 C3 (tupd_same _ _ _) F3). }
     assert (XT : forall l r, seqo (map T l) = Some r -> seqo (map (tupd T top (IArray true r)) l) = Some r).
     { intros l r Hr. eapply seqo_map_ext; [exact Hr|]. intros x _ Hx. apply tupd_ext; assumption. }
     destruct n as [neg iw v|fw bits|v|tx data bytes|tx hdr arr cap0 chunks|indef data al elems|indef data al pairs|v child];
@@ -2450,21 +2570,26 @@ Proof. intros Hb Hl HS. destruct t; try exact Logic.I; cbn [tok_fits].
   - destruct (C08_payload_inside bs _ off data n Hb HS (or_intror eq_refl)) as (_ & H2 & H3 & _). lia. Qed.
 
 Lemma hload_loop_sim : forall fuel buf read stk fs w k,
-  SIZE_MAX <= cap -> bytes_ok buf -> len buf < 2 ^ 57 -> read <= len buf ->
+  SIZE_MAX <= cap -> bytes_ok buf -> len buf < SIZE_MAX -> read <= len buf ->
   (length buf - N.to_nat read < fuel)%nat -> k <= read ->
   LI w [] stk -> SIMS k w stk fs ->
-  match load_loop L cap fuel buf read fs with
-  | LOk t n => exists a w', hload_loop grant L fuel buf read stk w = Ret (Some a, ENone, 0, n) w' /\
-                            LI w' [a] [] /\ SIMR w' a t
-  | LErr code p q => exists w', hload_loop grant L fuel buf read stk w = Ret (None, code, p, q) w' /\ UI w' []
-  | LFault => False
-  end.
+  exists r w', hload_loop refuse L fuel buf read stk w = Ret r w' /\
+    (match load_loop L cap fuel buf read fs with
+     | LOk t n => exists a, r = (Some a, ENone, 0, n) /\ LI w' [a] [] /\ SIMR w' a t
+     | LErr code p q => r = (None, code, p, q) /\ UI w' []
+     | LFault => False
+     end \/
+     (Bad (len buf) /\ exists p q, r = (None, EMem, p, q))).
 Proof.
-  assert (P57 : 2 ^ 57 < SIZE_MAX) by (unfold SIZE_MAX; change (2 ^ 57) with 144115188075855872; lia).
   induction fuel as [|f IH]; intros buf read stk fs w k Hcap Hb Hlen Hread Hfuel Hk H HS; [lia|].
+  assert (UT : forall stk' w1 code (p q : N), UI w1 stk' ->
+            exists r w', (unwind stk' ;;; @ret HOps.hres (@None addr, code, p, q)) w1 = Ret r w' /\
+                         r = (None, code, p, q) /\ UI w' []).
+  { intros stk' w1 code p q U. destruct (unwind_to w1 stk' code p q U) as (w' & E & U'). eauto. }
   cbn [HOps.hload_loop load_loop].
   destruct (N.leb_spec (len buf) read) as [Hle|Hlt].
-  { apply unwind_to. apply (A5 LI_UI). exact H. }
+  { destruct (UT stk w ENotEnough read read ((A5 LI_UI) _ _ H)) as (r & w' & E & -> & U).
+    eexists. eexists. split; [exact E|]. left. split; [reflexivity|exact U]. }
   pose proof (C08_contract (skipnN read buf) (bytes_ok_skipn read buf Hb)) as Hc.
   rewrite len_skipnN in Hc. specialize (Hc ltac:(lia)). unfold contract in Hc.
   destruct (head_spec (skipnN read buf)) as [t n|full|] eqn:HSp.
@@ -2473,19 +2598,31 @@ Proof.
     pose proof (tok_fits_spec _ _ _ (bytes_ok_skipn read buf Hb) ltac:(rewrite len_skipnN; lia) HSp) as Tf.
     apply head_spec_tok_len in HSp. rewrite len_skipnN in HSp.
     rewrite wrap64_small by (unfold SIZE_MAX, W64 in *; lia).
-    destruct (hcallback_sim w stk fs k t Hcap H HS Tk Tf ltac:(lia)) as (c & w1 & E & (Hf & Hcf & Hse & HU & HOK)).
+    destruct (hcallback_sim w stk fs k t Hcap H HS Tk Tf) as (c & w1 & E & [(Hf & Hcf & Hse & HU & HOK)|(HB & Hcf & HU)]).
+    2:{ (* the H side alone has failed *)
+        bstep E. rewrite Hcf.
+        destruct (UT (hstack c) w1 EMem (read + n) (read + n) HU) as (r & w' & E' & -> & U).
+        eexists. eexists. split; [exact E'|]. right. split; [|eauto].
+        destruct HB as [HB|HB]; [left; exact HB|right; lia]. }
     bstep E. cbv zeta. rewrite Hf, <- Hcf, <- Hse.
     destruct (hcf c).
-    { apply unwind_to. apply HU. left. reflexivity. }
+    { destruct (UT (hstack c) w1 EMem (read + n) (read + n) (HU (or_introl eq_refl))) as (r & w' & E' & -> & U).
+      eexists. eexists. split; [exact E'|]. left. split; [reflexivity|exact U]. }
     destruct (hse c).
-    { apply unwind_to. apply HU. right. reflexivity. }
+    { destruct (UT (hstack c) w1 ESyntax (read + n) (read + n) (HU (or_intror eq_refl))) as (r & w' & E' & -> & U).
+      eexists. eexists. split; [exact E'|]. left. split; [reflexivity|exact U]. }
     specialize (HOK eq_refl eq_refl). destruct (hstack c) as [|r l].
-    + destruct HOK as (a & tr & -> & -> & -> & HL & HR). eexists. eexists. split; [reflexivity|]. split; assumption.
+    + destruct HOK as (a & tr & -> & -> & -> & HL & HR). eexists. eexists. split; [reflexivity|]. left.
+      exists a. split; [reflexivity|]. split; assumption.
     + destruct HOK as (HL & HS'). pose proof HS' as (T' & _ & F').
       destruct (stack (callback L cap t fs)) as [|f0 fs0]; [inversion F'|].
       apply (IH buf (read + n) (r :: l) (f0 :: fs0) w1 (k + 1)); try assumption; [lia|unfold len in *; lia|lia].
-  - destruct Hc as (req & Hc & _). rewrite Hc. cbn [st]. apply unwind_to. apply (A5 LI_UI). exact H.
-  - rewrite Hc. cbn [st]. apply unwind_to. apply (A5 LI_UI). exact H.
+  - destruct Hc as (req & Hc & _). rewrite Hc. cbn [st].
+    destruct (UT stk w ENotEnough read read ((A5 LI_UI) _ _ H)) as (r & w' & E & -> & U).
+    eexists. eexists. split; [exact E|]. left. split; [reflexivity|exact U].
+  - rewrite Hc. cbn [st].
+    destruct (UT stk w EMalformed read read ((A5 LI_UI) _ _ H)) as (r & w' & E & -> & U).
+    eexists. eexists. split; [exact E|]. left. split; [reflexivity|exact U].
 Qed.
 
 
@@ -2504,12 +2641,14 @@ Proof. induction l as [|a l IH]; intros r Hs Hf w1 Hq; cbn [map seqo mapM] in *.
 
 
 Lemma abs_tree T o od w : Inv o od [] w -> G w0 w -> CONS T w ->
-  forall fuel a t w1, heap w1 = heap w -> T a = Some t -> N0 <= a -> (N.to_nat (next w - a) < fuel)%nat ->
+  forall fuel a t w1, heap w1 = heap w -> T a = Some t -> N0 <= a -> (N.to_nat (next w - a) <= fuel)%nat ->
   exists w2, abs fuel a w1 = Ret t w2 /\ heap w2 = heap w.
 Proof. intros I Gw C. pose proof (Inv_wf _ _ _ _ I) as Hwf.
   assert (Hlive : forall x, T x <> None -> x < next w).
   { intros x Hx. apply (wf_item_lt w x Hwf). apply (cons_item T w x C Hx). }
-  induction fuel as [|f IH]; intros a t w1 Hh Ht Hge Hfu; [lia|].
+  induction fuel as [|f IH]; intros a t w1 Hh Ht Hge Hfu.
+  { assert (La : a < next w) by (apply Hlive; congruence). lia. }
+  assert (La : a < next w) by (apply Hlive; congruence).
   cbn [abs]. destruct (C a t Ht) as (rc & n & Ea & Nt).
   pose proof (Inv_nil_pos _ _ _ _ _ _ I Ea) as Hrc.
   assert (Ha1 : heap w1 a = Some (CItem rc n)) by (rewrite Hh; exact Ea).
@@ -2607,13 +2746,102 @@ Qed.
 
 End Refine.
 
-(* 13. (D) refinement: with an allocator that grants every request, a limit [cap] of the pure model that
+(* 13. (D') the simulation read for an arbitrary allocator (load_h_refines_fuel / _any, load_h_ok_is_load_any,
+   load_h_ok_abs_any), and its special case
+   (D) refinement: with an allocator that grants every request, a limit [cap] of the pure model that
    no size_t request can exceed, and a buffer shorter than 2^57 bytes (so that no growth guard of
    _cbor_realloc_multiple can fire), cbor_load over the heap returns exactly what PBuild.load
    returns: the same error code, position and read count, or an item whose abstraction [abs_of]
    is the tree of the pure model *)
 Section MainD.
 Variables (L cap : N) (own ownd : addr -> N).
+
+(* the general form: ANY allocator, any input shorter than SIZE_MAX.  Either the two sides agree, or the H side
+   alone has reported a memory error - which needs a request refused by the oracle, or a growth stopped by
+   the overflow guards (2^57 items at least).  In particular a successful cbor_load has built, whatever was
+   refused before or elsewhere, exactly the tree of the pure model. *)
+Lemma load_h_refines_fuel : forall refuse buf w,
+  SIZE_MAX <= cap -> bytes_ok buf -> len buf < SIZE_MAX -> wf w -> Inv own ownd [] w ->
+  exists r w', load_h refuse L buf w = Ret r w' /\
+    (match load L cap buf with
+     | LOk t n => exists a, r = (Some a, ENone, 0, n) /\
+                    forall fuel, (N.to_nat (next w' - a) <= fuel)%nat -> exists w'', abs fuel a w' = Ret t w''
+     | LErr code p q => r = (None, code, p, q)
+     | LFault => False
+     end \/
+     (((exists i s, refuse i s = true) \/ 2 ^ 57 <= len buf) /\ exists p q, r = (None, EMem, p, q))).
+Proof. intros refuse buf w Hcap Hb Hlen _ I. unfold load, load_h.
+  destruct (len buf =? 0); [eexists; eexists; split; [reflexivity|left; reflexivity]|].
+  pose proof (LI_init refuse L w own ownd I) as H.
+  assert (HS : SIMS 0 w [] []).
+  { exists (fun _ => None). split; [intros x t Hx; discriminate|constructor]. }
+  destruct (hload_loop_sim refuse L cap w own ownd (S (length buf)) buf 0 [] [] w 0 Hcap Hb Hlen
+              ltac:(lia) ltac:(lia) ltac:(lia) H HS) as (r & w' & E & [R|R]).
+  2:{ exists r, w'. split; [exact E|right; exact R]. }
+  exists r, w'. split; [exact E|]. left.
+  destruct (load_loop L cap (S (length buf)) buf 0 []) as [|t n|code p q].
+  - exact R.
+  - destruct R as (a & -> & HL & (T & C & Ta)). destruct HL as (I' & Gw & _ & _ & Fa).
+    pose proof (Forall_inv Fa) as Ha. cbn beta in Ha.
+    exists a. split; [reflexivity|]. intros fuel Hfu.
+    destruct (abs_tree refuse L cap w own ownd T _ _ w' I' Gw C fuel a t w' eq_refl Ta Ha Hfu) as (w'' & E2 & _).
+    exists w''. exact E2.
+  - apply R.
+Qed.
+
+(* the general form: ANY allocator, any input shorter than SIZE_MAX.  Either the two sides agree, or the H side
+   alone has reported a memory error - which needs a request refused by the oracle, or a growth stopped by
+   the overflow guards (2^57 items at least).  In particular a successful cbor_load has built, whatever was
+   refused before or elsewhere, exactly the tree of the pure model. *)
+Theorem load_h_refines_any : forall refuse buf w,
+  SIZE_MAX <= cap -> bytes_ok buf -> len buf < SIZE_MAX -> wf w -> Inv own ownd [] w ->
+  exists r w', load_h refuse L buf w = Ret r w' /\
+    (match load L cap buf with
+     | LOk t n => exists a w'', r = (Some a, ENone, 0, n) /\ abs_of a w' = Ret t w''
+     | LErr code p q => r = (None, code, p, q)
+     | LFault => False
+     end \/
+     (((exists i s, refuse i s = true) \/ 2 ^ 57 <= len buf) /\ exists p q, r = (None, EMem, p, q))).
+Proof. intros refuse buf w Hcap Hb Hlen Hwf I.
+  destruct (load_h_refines_fuel refuse buf w Hcap Hb Hlen Hwf I) as (r & w' & E & [R|R]).
+  2:{ exists r, w'. split; [exact E|right; exact R]. }
+  exists r, w'. split; [exact E|]. left.
+  destruct (load L cap buf) as [|t n|code p q]; [exact R| |exact R].
+  destruct R as (a & -> & Hf). destruct (Hf (abs_fuel w')) as (w'' & E2); [unfold abs_fuel; lia|].
+  exists a, w''. split; [reflexivity|exact E2].
+Qed.
+
+(* ... and the traversal of the decoded item succeeds with any recursion budget that covers the cells
+   allocated after the root (the item's children are always younger than the item) *)
+Corollary load_h_ok_abs_any : forall refuse buf w a c p r w',
+  SIZE_MAX <= cap -> bytes_ok buf -> len buf < SIZE_MAX -> wf w -> Inv own ownd [] w ->
+  load_h refuse L buf w = Ret (Some a, c, p, r) w' ->
+  exists t, load L cap buf = LOk t r /\ c = ENone /\ p = 0 /\
+    forall fuel, (N.to_nat (next w' - a) <= fuel)%nat -> exists w'', abs fuel a w' = Ret t w''.
+Proof. intros refuse buf w a c p r w' Hcap Hb Hlen Hwf I E.
+  destruct (load_h_refines_fuel refuse buf w Hcap Hb Hlen Hwf I) as (r0 & w1 & E1 & [R|(_ & p0 & q0 & R)]).
+  - rewrite E1 in E. inversion E; subst r0 w1. clear E.
+    destruct (load L cap buf) as [|t n|code p1 q1].
+    + destruct R.
+    + destruct R as (a0 & R' & Hf). inversion R'; subst. exists t. repeat split; try reflexivity. exact Hf.
+    + discriminate R.
+  - rewrite E1, R in E. discriminate E.
+Qed.
+
+(* what a successful cbor_load has built, under any allocator *)
+Corollary load_h_ok_is_load_any : forall refuse buf w a c p r w',
+  SIZE_MAX <= cap -> bytes_ok buf -> len buf < SIZE_MAX -> wf w -> Inv own ownd [] w ->
+  load_h refuse L buf w = Ret (Some a, c, p, r) w' ->
+  exists t w'', load L cap buf = LOk t r /\ abs_of a w' = Ret t w'' /\ c = ENone /\ p = 0.
+Proof. intros refuse buf w a c p r w' Hcap Hb Hlen Hwf I E.
+  destruct (load_h_refines_any refuse buf w Hcap Hb Hlen Hwf I) as (r0 & w1 & E1 & [R|(_ & p0 & q0 & R)]).
+  - rewrite E1 in E. inversion E; subst r0 w1. clear E.
+    destruct (load L cap buf) as [|t n|code p1 q1].
+    + destruct R.
+    + destruct R as (a0 & w2 & R' & E2). inversion R'; subst. exists t, w2. repeat split; assumption.
+    + discriminate R.
+  - rewrite E1, R in E. discriminate E.
+Qed.
 
 Theorem load_h_refines : forall buf w,
   SIZE_MAX <= cap -> bytes_ok buf -> len buf < 2 ^ 57 -> wf w -> Inv own ownd [] w ->
@@ -2622,21 +2850,15 @@ Theorem load_h_refines : forall buf w,
   | LErr code p q => exists w', load_h grant L buf w = Ret (None, code, p, q) w'
   | LFault => False
   end.
-Proof. intros buf w Hcap Hb Hlen _ I. unfold load, load_h.
-  destruct (len buf =? 0); [eexists; reflexivity|].
-  pose proof (LI_init grant L w own ownd I) as H.
-  assert (HS : SIMS 0 w [] []).
-  { exists (fun _ => None). split; [intros x t Hx; discriminate|constructor]. }
-  pose proof (hload_loop_sim L cap w own ownd (S (length buf)) buf 0 [] [] w 0 Hcap Hb Hlen
-                ltac:(lia) ltac:(lia) ltac:(lia) H HS) as R.
-  destruct (load_loop L cap (S (length buf)) buf 0 []) as [|t n|code p q].
-  - exact R.
-  - destruct R as (a & w' & E & HL & (T & C & Ta)). destruct HL as (I' & Gw & _ & _ & Fa).
-    pose proof (Forall_inv Fa) as Ha. cbn beta in Ha.
-    destruct (abs_tree L cap w own ownd T _ _ w' I' Gw C (abs_fuel w') a t w' eq_refl Ta Ha) as (w'' & E2 & _).
-    { unfold abs_fuel. lia. }
-    exists a, w', w''. split; [exact E|exact E2].
-  - destruct R as (w' & E & _). exists w'. exact E.
+Proof. intros buf w Hcap Hb Hlen Hwf I.
+  assert (P57 : 2 ^ 57 < SIZE_MAX) by (unfold SIZE_MAX; change (2 ^ 57) with 144115188075855872; lia).
+  destruct (load_h_refines_any grant buf w Hcap Hb ltac:(lia) Hwf I) as (r & w' & E & [R|([(i & s & X)|X] & _)]).
+  - destruct (load L cap buf) as [|t n|code p q].
+    + exact R.
+    + destruct R as (a & w'' & -> & E2). exists a, w', w''. split; assumption.
+    + subst r. exists w'. exact E.
+  - discriminate X.
+  - lia.
 Qed.
 
 (* the two directions, read from the heap side *)
@@ -2712,6 +2934,10 @@ Proof. split; [eexists; vm_compute; reflexivity|eexists; vm_compute; reflexivity
 Print Assumptions load_h_never_faults.
 Print Assumptions load_h_clean_failure.
 Print Assumptions load_h_success.
+Print Assumptions load_h_success_order.
 Print Assumptions load_h_refines.
+Print Assumptions load_h_refines_any.
+Print Assumptions load_h_ok_is_load_any.
+Print Assumptions load_h_ok_abs_any.
 Print Assumptions load_h_ok_is_load.
 Print Assumptions load_h_err_is_load.
